@@ -134,7 +134,7 @@ Emit ==
 
 \* ---------------------------------------------------------------- family R: random (tlc -simulate, C25R.cfg)
 Pick(S) == RandomElement(S)
-RMax == IF Tier = "thorough" THEN 1100 ELSE 300
+RMax == IF Tier = "thorough" THEN 1100 ELSE 200
 InitR == c = [f |-> "start"]
 \* two steps: length and key range become state values before the keys are drawn
 NextR == \/ c.f = "start" /\ c' = [f |-> "Rparam", n |-> IF Pick(1..4) = 1 THEN Pick(0..70) ELSE Pick(0..RMax),
